@@ -1,13 +1,13 @@
 package props
 
 import (
-	"reflect"
 	"bytes"
 	"crypto/sha256"
 	"fmt"
 	"os"
 	"os/exec"
 	"path/filepath"
+	"reflect"
 	"sort"
 	"strconv"
 	"strings"
